@@ -533,7 +533,19 @@ impl<'a> TokenLexer<'a> {
         let Some(end_pos) = input[skip_bytes..].find('}') else {
             return Token::Error;
         };
-        self.advance_line(end_pos + skip_bytes);
+        // The format options may contain non-ASCII fill characters and line breaks,
+        // so the end position needs to be counted rather than assumed from the byte count.
+        let format_bytes = end_pos + skip_bytes;
+        let mut position = self.current_position();
+        for c in input[..format_bytes].chars() {
+            if c == '\n' {
+                position.line += 1;
+                position.column = 0;
+            } else {
+                position.column += c.width().unwrap_or(0) as u32;
+            }
+        }
+        self.advance_to_position(format_bytes, position);
         self.string_mode_stack.pop(); // StringMode::TemplateExprFormat
         Token::StringLiteral
     }
